@@ -27,6 +27,7 @@ SKELETONS = [
   ("color-set-on-region", [["r1", "b e ac"]], ["body", "", [["div", "r=r1", [["p", "", [S("A", "")]]]]]]),
   ("color-set-on-offset-div-clipped", [], ["body", "e", [["div", "b ac", [["p", "", [S("A", "")]]]]]]),
   ("two-sets", [], ["body", "", [["div", "", [["p", "b", [S("A", "ac ac=green")]]]]]]),
+  ("no-body-two-regions", [["r1", "b e"], ["r2", "b"]], None),
   ("set-restores-specified", [], ["body", "", [["div", "", [["p", "b", [S("A", "c=blue ac ac=blue")]]]]]]),
   ("two-regions", [["r1", "b"], ["r2", "e"]], ["body", "", [["div", "", [["p", "r=r1 b", [S("A", "")]], ["p", "r=r2 e", [S("B", "")]]]]]]),
   ("set-on-body", [], ["body", "b ac", [["div", "", [["p", "e", [S("A", "")]]]]]]),
